@@ -77,9 +77,29 @@ func (p P) String() string {
 
 func colOf(t string) int { return map[string]int{"n": 0, "t": 1, "x": 2}[t] }
 
+// customSets (Set >= 100): profiles without addresses and mappings (converter output) whose first
+// function differs although everything a profile-local identity could be built from coincides:
+// function number 1, line 10, address 0.
+var customSets = map[int][]ap.Stack{
+	100: {{Locs: []ap.Loc{{Addr: 0, Map: -1, Lines: []ap.Line{{Func: "foo", Sys: "foo", File: "x.go", Start: 1, Line: 10}}}}}},
+	101: {{Locs: []ap.Loc{{Addr: 0, Map: -1, Lines: []ap.Line{{Func: "bar", Sys: "bar", File: "x.go", Start: 1, Line: 10}}}}}},
+}
+
 func build(p P) *ap.AP {
 	v := typeVariants[p.TV]
 	a := &ap.AP{Types: v.types, Maps: enum.Maps2, Period: 1, PeriodType: &ap.VT{Type: "n", Unit: "count"}}
+	if cs, ok := customSets[p.Set]; ok {
+		for i, st := range cs {
+			pat := valuePatterns[p.Val][i%len(valuePatterns[p.Val])]
+			st = st.Clone()
+			st.Values = make([]int64, len(v.types))
+			for j, t := range v.types {
+				st.Values[j] = pat[colOf(t.Type)]
+			}
+			a.Stacks = append(a.Stacks, st)
+		}
+		return a
+	}
 	for i, sh := range stackSets[p.Set] {
 		pat := valuePatterns[p.Val][i%len(valuePatterns[p.Val])]
 		vals := make([]int64, len(v.types))
@@ -202,6 +222,7 @@ func Run(c *vk.Ctx) {
 			}
 		}
 	}
+	all = append(all, P{100, 1, 0}, P{101, 1, 0}, P{101, 2, 2})
 	data := map[string][]byte{}
 	aps := map[string]*ap.AP{}
 	for _, p := range all {
